@@ -269,6 +269,55 @@ def _case(eset, pa, sort, reply):
         return rt.ok()
 
 
+# ------------------------------------------------ free destinations whose parent directories are gone, with options
+FREE_LOCS = ['/v/p/q/deep/one', '/v/p/two', '/v/three']
+FREE_REPLIES = [('0', [0]), ('0-2', [0, 1, 2]), ('1,2', [1, 2]), ('2', [2]), ('2,0', [2, 0])]
+FREE_OPTS = [[], ['--overwrite'], ['--sort', 'path'], ['--overwrite', '--sort', 'date']]
+
+
+def _free(kind, reply, opt, parents):
+    """no destination exists: every valid selection must be restored completely whatever the options, whether the
+    parent directories of the original locations still exist (parents=1) or are gone (0)"""
+    with rt.untraced():
+        rt.begin(('free', K.KINDS[kind], FREE_REPLIES[reply][0], FREE_OPTS[opt], parents))
+        nodes = [W.d('/h'), W.d('/v/w'), W.f('/v/keep', 'KEEP', 0o644, 800)] + K.sentinels('/v/out')
+        if parents:
+            nodes += [W.d('/v/p/q/deep'), W.d('/v/p')]
+        td = '/v/.Trash-1000'
+        for j, loc in enumerate(FREE_LOCS):
+            nodes += K.trashed(td, 'f%d' % j, K.quote(loc[len('/v/'):]), '2020-01-0%dT00:00:00' % (j + 1), K.KINDS[(kind + j) % 6], 2000 + 20 * j)
+        world = W.W(mounts=K.MOUNTS, cwd='/v', nodes=nodes)
+        rp, want = FREE_REPLIES[reply]
+        m, res = scen.run_model(world, [{'snap': '/'}, C('restore', FREE_OPTS[opt] + ['/v'], scen.env(), stdin=[rp], cwd='/v/w'), {'snap': '/'}])
+        before, r, after = res
+        label = 'free-destinations:opts=%s:parents=%s' % ('+'.join(FREE_OPTS[opt]) or 'none', 'present' if parents else 'gone')
+        if r['exc']:
+            return rt.fail('C13:traceback:%s:%s' % (r['exc'].split(':')[0], label), r['exc'])
+        lst = K.restore_listing(r['out'])
+        if [p for (_, _, p) in lst] != FREE_LOCS:  # (date order == path order here)
+            return rt.fail('C13:wrong-entries-offered:' + label, repr(lst))
+        for j, loc in enumerate(FREE_LOCS):
+            payload = scen.sub(before, td + '/files/f%d' % j)
+            if j in want:
+                if scen.sub(after, loc) != payload or scen.sub(after, td + '/files/f%d' % j) is not None or scen.sub(after, td + '/info/f%d.trashinfo' % j) is not None:
+                    return rt.fail('C13:selected-entry-not-restored:' + label, 'index %d (%s) chosen by reply %r: at destination %r, still in trash %r; exit %r stderr %r' % (
+                        j, loc, rp, scen.sub(after, loc) is not None, scen.sub(after, td + '/files/f%d' % j) is not None, r['exit'], r['err'][-200:]))
+            else:
+                if scen.sub(after, loc) is not None or scen.sub(after, td + '/files/f%d' % j) != payload:
+                    return rt.fail('C13:unselected-entry-restored:' + label, 'index %d not chosen by %r' % (j, rp))
+        if r['exit'] != 0:
+            return rt.fail('C13:valid-selection-exit-nonzero:' + label, 'exit %r stderr %r' % (r['exit'], r['err'][-200:]))
+        return rt.ok()
+
+
+def w_free(kind: int, reply: int, opt: int, parents: int) -> str:
+    """
+    pre: 0 <= kind < 6 and 0 <= reply < 5 and 0 <= opt < 4 and 0 <= parents < 2
+    post: _ == ''
+    """
+    return _free(rt.sel(kind, 6), rt.sel(reply, 5), rt.sel(opt, 4), rt.sel(parents, 2))
+
+
 def w_main(eset: int, pa: int, sort: int, reply: int) -> str:
     """
     pre: PARTITION is None or pa == PARTITION
@@ -291,6 +340,8 @@ def obligations(tier):
     gparts = _prefix_parts(1, 3) if tier == 'quick' else _prefix_parts(2, 4)
     sparts = [('short', 3, 2)] if tier == 'quick' else _prefix_parts(1, 3)
     return kpair.obligations(tier) + [
+        CH('W_free_destinations_x_options_x_parents', MOD, 'w_free', timeout=600, engine='W', regime='selector', encodes=K.RESTORE_FUNCS, stubs=K.STUBS,
+           bounds='3 entries with free destinations (6 kind rotations) x 5 valid replies x 4 option sets (--overwrite, --sort) x parent directories present / gone'),
         CH('K_grammar_all_replies', MOD, 'k_grammar', timeout=t, partitions=gparts, twin=(tier == 'quick'),
            engine='K', regime='traced',
            encodes=['parse_indexes', 'parse_int_index', 'Range.__iter__', 'Sequences.all_indexes'],
